@@ -38,8 +38,8 @@ func genC09(cfg Config, emit Emit) error {
 		r := cfg.Rng
 		size := sizes[i%len(sizes)]
 		i++
-		res := []string{"ok", "okfx", "err"}
-		w.Services = []ASvc{{Can: w.Desc.Can, Result: res[r.Intn(3)]}, {Can: "other/thing", Result: res[r.Intn(3)]}}
+		res := []string{"ok", "okfx", "err", "okjoin"}
+		w.Services = []ASvc{{Can: w.Desc.Can, Result: res[r.Intn(4)]}, {Can: "other/thing", Result: res[r.Intn(4)]}}
 		main := w.Tokens[w.Inv]
 		w.Invs = nil
 		if size > 0 {
